@@ -95,6 +95,32 @@ let run (t : string list) : string =
        | Some ids ->
            let ids = Stdlib.List.sort_uniq compare (Stdlib.List.map (fun n -> Z.to_int (zt_of_n n)) ids) in
            if ids = [] then "Z -" else "Z " ^ Stdlib.String.concat "," (Stdlib.List.map string_of_int ids))
+  | ["tsite_all"; h] ->
+      let lit = bytes_of_hex h in
+      let v = TimeSites.TStr lit in
+      let p_dt = TimeSites.site_payload TimeSites.FDateTime (Some v) in
+      let p_d = TimeSites.site_payload TimeSites.FDate (Some v) in
+      let w = TimeSites.site_where v in
+      let sn = TimeSites.site_since_row lit in
+      let f = TimeSites.site_filter TimeSites.FDateTime v in
+      let clamp z = let x = zt_of_z z in if Z.sign x < 0 then Z.zero else x in
+      let cands = [Z.zero]
+        @ (match p_dt with TimeSites.PNum z -> [clamp z] | _ -> [])
+        @ (match p_d with TimeSites.PNum z -> [clamp z] | _ -> [])
+        @ (match w with TimeSites.CNum z -> [clamp z] | _ -> [])
+        @ (match sn with TimeSites.SinceNum z -> [clamp z] | _ -> [])
+        @ (match f with TimeSites.SInt z -> [clamp z] | _ -> []) in
+      let cands = Stdlib.List.sort_uniq Z.compare cands in
+      let zones = Stdlib.List.mapi (fun i c -> { TimeSites.z_id = n_of_int i; TimeSites.z_ts = [z_of_zt c] }) cands in
+      let pr = match TimeSites.prune false TimeSites.OEq (TimeSites.SUtf8 lit) zones with
+        | None -> "NONE"
+        | Some ids ->
+            let ids = Stdlib.List.sort_uniq compare (Stdlib.List.map (fun n -> Z.to_int (zt_of_n n)) ids) in
+            if ids = [] then "?" else
+              Stdlib.String.concat "," (Stdlib.List.map (fun i -> Z.to_string (Stdlib.List.nth cands i)) ids) in
+      Printf.sprintf "PDT=%s;PD=%s;W=%s;SN=%s;F=%s;PR=%s" (pstate_str p_dt) (pstate_str p_d) (cond_str w)
+        (match sn with TimeSites.SinceNum z -> "NUM " ^ string_of_z z | TimeSites.SinceIgnored -> "IGN")
+        (scalar_str f) pr
   | ["tsite_matspec"; h; ts; eid] ->
       let since = if h = "-" then None else Some (bytes_of_hex h) in
       (match TimeSites.site_matspec since (z_of_string ts) (z_of_string eid) with
